@@ -53,12 +53,15 @@ theorem ok_nsk_user_prefix :
       = some (.elem (some urnB, ['R']) [((some urnA, ['x']), ['1'])] []) := by
   rfl
 
-/-- witness 2 (c03-default-ns-attribute): attribute in the user's default namespace is
-written without prefix, so it is read in no namespace -/
-theorem cx_default_ns_attribute :
+/-- repaired (PENDING-04, was finding c03-default-ns-attribute): an attribute in the user's
+default namespace gets a generated prefix and is read back in that namespace — also on an
+unqualified child, where the writer used to raise `KeyError` -/
+theorem ok_default_ns_attribute :
     (nativeWrite tblNsEnv {} [(some [], urnA)]
-      [.start (inA ['R']), .attr (inA ['x']) (str ['1']), .end_ (inA ['R'])]).toOption.bind infoset
-      = some (.elem (some urnA, ['R']) [((none, ['x']), ['1'])] []) := by
+      [.start (inA ['R']), .attr (inA ['x']) (str ['1']),
+       .start ['c'], .attr (inA ['y']) (str ['2']), .end_ ['c'], .end_ (inA ['R'])]).toOption.bind infoset
+      = some (.elem (some urnA, ['R']) [((some urnA, ['x']), ['1'])]
+          [.elem (none, ['c']) [((some urnA, ['y']), ['2'])] []]) := by
   rfl
 
 /-- witness 3 (c03-reserved-prefix): user prefix `xml` bound to another namespace is passed through -/
@@ -136,7 +139,7 @@ theorem write_correct_fails : ¬ WriteCorrect := by
 (each entry a legal declaration: NCName prefix other than `xmlns`, `xml` only for the XML
 namespace, declarable URI — `ns<digits>` and standard prefixes are allowed) and every well-nested event sequence whose
 names and values are lexically sound (`contentOK`: NCName local names,
-declarable namespaces, no attribute in the user's default namespace, XML
+declarable namespaces, XML
 characters only) and structurally sound (`shapeOK`: no QName with a namespace in a DATA
 event that is not the first content event), the native writer raises no exception and its output is a
 namespace-well-formed document: every prefix used on an element or attribute is
@@ -193,12 +196,13 @@ theorem write_infoset_partial (cfg : Cfg) (hcfg : plainCfg cfg = true)
 
 /-- the hypotheses are satisfiable by a non-trivial input: default namespace in the
 user map, an unused entry, an unqualified child (default namespace reset), a
-grandchild back in the default namespace, attributes in a third namespace,
+grandchild back in the default namespace, attributes in a third namespace and in the
+user's default namespace,
 markup characters and a carriage return in values, consecutive text chunks -/
 example :
     let m : List (Pfx × Str) := [(none, urnA), (some ['p'], urnB), (some ['z'], urnX)]
     let kids : Content :=
-      .child ['c'] [(inB ['k'], str ['<', '&', '"'])]
+      .child ['c'] [(inB ['k'], str ['<', '&', '"']), (inA ['d'], str ['x'])]
         (.child (inA ['g']) [] (.data (str ['t', ' ', '>']) (.data (str ['\r', '\n']) .nil)) .nil)
         (.data (str ['t', 'a', 'i', 'l']) (.data (str ['2']) .nil))
     plainCfg {} = true ∧ userMapOK tblNsEnv m = true
@@ -273,10 +277,10 @@ theorem generate_prefix_never_overwrites (u : Str) (M : NsMap) :
   Proofs.MapInv.generatePrefix_appends tblNsEnv u M
 
 /-- **generate_prefix keeps the invariant**: on a map satisfying `MapOK` (unique keys, every
-entry a legal declaration, default namespace not also prefixed) generating a prefix for a
-declarable namespace without prefix keeps `MapOK` — so it holds after any number of generations. -/
+entry a legal declaration) generating a prefix for a
+declarable namespace that is not bound to a prefix keeps `MapOK` — so it holds after any number of generations. -/
 theorem generate_prefix_keeps_invariant (d : Option Str) (u : Str) (M : NsMap)
-    (hM : Proofs.MapInv.MapOK tblNsEnv d M) (hu : uriOK u = true) (hne : prefixExists u M = false) :
+    (hM : Proofs.MapInv.MapOK tblNsEnv d M) (hu : uriOK u = true) (hne : prefixedExists u M = false) :
     Proofs.MapInv.MapOK tblNsEnv d (generatePrefix tblNsEnv u M).2 :=
   (Proofs.MapInv.generatePrefix_ok tblNsEnv (Proofs.MapInv.envOK_sound _ tables_ok) d u M hM hu hne).2.1
 
